@@ -593,6 +593,11 @@ def node_variants(s, parent_kind=None, siblings=1):
             mod("SparselyBin.binWidth*(1+tiny)", binWidth=s["binWidth"] * (1.0 + 1e-9))
         if s["origin"] + 1e-9 * max(1.0, abs(s["origin"])) > s["origin"]:
             mod("SparselyBin.origin+tiny", origin=s["origin"] + 1e-9 * max(1.0, abs(s["origin"])))
+        # a width that differs only by what the rounding of origin + binWidth swallows: the two declarations
+        # have the same first upper edge and different widths all the same
+        absorbed = (s["origin"] + s["binWidth"]) - s["origin"]
+        if absorbed != s["binWidth"] and absorbed > 0.0:
+            mod("SparselyBin.binWidth-absorbed-by-origin", binWidth=absorbed)
     elif k == "CentrallyBin":
         cs = sorted(s["centers"])
         mod("CentrallyBin.extra-trailing-centre", centers=cs + [cs[-1] + 16.0])
@@ -635,6 +640,10 @@ def node_variants(s, parent_kind=None, siblings=1):
     elif k == "Bag":
         if s["range"] == "N" and (free_type):
             out.append(("Bag.range N->N2", {"k": "Bag", "range": "N2", "q": {"t": "pair", "cols": ["x", "y"], "fl": s["q"]["fl"]}}))
+            out.append(("Bag.range N->S", {"k": "Bag", "range": "S", "q": {"t": "cat", "col": "t", "fl": s["q"]["fl"]}}))
+        if s["range"] in ("S", "N2") and (free_type):
+            # the range is a declared parameter: two bags that hold nothing (yet) differ in it all the same
+            out.append((f"Bag.range {s['range']}->N", {"k": "Bag", "range": "N", "q": {"t": "num", "col": "x", "fl": s["q"]["fl"]}}))
         if free_type:
             out.append(("Bag->Count", {"k": "Count"}))
     elif k == "Fraction" and free_type:
